@@ -21,6 +21,8 @@ type Req struct {
 	Raw string `json:"raw,omitempty"`
 	// Spelling is the abstract form of Raw (spec/Encoding.tla).
 	Spelling [][]Octet `json:"spelling,omitempty"`
+	// Query, if set, is the raw query of the request (no influence on the matching).
+	Query string `json:"query,omitempty"`
 }
 
 // Octet is one character of a path segment and how it is spelled.
@@ -37,7 +39,8 @@ type Event struct {
 	Default  bool           `json:"default"`
 	DefBt    bool           `json:"defbt"`
 	Mode     string         `json:"mode,omitempty"`
-	Kind     string         `json:"kind,omitempty"` // add | update | delete
+	Debug    bool           `json:"debug,omitempty"` // the service logs at debug level
+	Kind     string         `json:"kind,omitempty"`  // add | update | delete
 	Src      string         `json:"src,omitempty"`
 	Rules    []Rule         `json:"rules"`
 	Result   string         `json:"result,omitempty"` // ok | rejected
@@ -62,7 +65,16 @@ type Bed struct {
 // Start starts a decision (or proxy) service. With withDefault a default rule exists (its
 // backtracking flag is defBt).
 func Start(mode string, withDefault, defBt bool, up *client.Upstream) (*Bed, error) {
+	return StartDebug(mode, withDefault, defBt, up, false)
+}
+
+// StartDebug is Start with the log level of the service: what is logged must not matter.
+func StartDebug(mode string, withDefault, defBt bool, up *client.Upstream, debug bool) (*Bed, error) {
 	cfg := map[string]any{}
+
+	if debug {
+		cfg["log"] = map[string]any{"level": "debug"}
+	}
 
 	svc := "decision"
 	if mode == app.Proxy {
@@ -172,7 +184,9 @@ func (b *Bed) Probe(r Req) (Event, error) {
 		path = PathString(r.Path)
 	}
 
-	cr := client.Request{Method: r.Method, Host: r.Host, Path: path}
+	cr := client.Request{Method: r.Method, Host: r.Host, Path: path, Query: r.Query}
+	// the way Envoy fills the check request: one attribute with path and query
+	cr.EnvoyPathWithQuery = r.Query != ""
 
 	switch {
 	case b.App.Mode == app.Envoy:
